@@ -34,6 +34,16 @@ func site(skip int) string {
 	return file + ":" + strconv.Itoa(line)
 }
 
+// The real lock behind a simulated one is taken when the cooperative
+// acquisition has succeeded (task mode) or by the only goroutine there is
+// (direct mode: an engine calling a component outside any scheduler), so it is
+// never contended. If it is taken all the same, waiting for it would wait for
+// ever - a lock that was never released, or a lock taken twice on one call
+// path: the real program deadlocks here. The simulated lock panics instead, so
+// that the run ends with a crash verdict and a replay file rather than with a
+// worker process that never comes back.
+const selfDeadlock = "deadlock: this lock is held and nothing that is running can release it (it was not released on an earlier path, or it is taken twice on this one)"
+
 // lock state, touched only on the scheduler goroutine
 type lstate struct {
 	writer  *simrt.Task
@@ -60,7 +70,9 @@ func (m *Mutex) Lock() {
 			Ready: func() bool { return m.st.writer == nil },
 		})
 	}
-	m.real.Lock()
+	if !m.real.TryLock() {
+		panic(selfDeadlock)
+	}
 }
 
 func (m *Mutex) TryLock() bool {
@@ -126,7 +138,9 @@ func (m *RWMutex) Lock() {
 			Ready: free,
 		})
 	}
-	m.real.Lock()
+	if !m.real.TryLock() {
+		panic(selfDeadlock)
+	}
 }
 
 func (m *RWMutex) Unlock() {
@@ -161,7 +175,9 @@ func (m *RWMutex) RLock() {
 			Ready: free,
 		})
 	}
-	m.real.RLock()
+	if !m.real.TryRLock() {
+		panic(selfDeadlock)
+	}
 }
 
 func (m *RWMutex) RUnlock() {
